@@ -165,6 +165,39 @@ pub fn run(ctx: &mut Ctx) {
             }
         }
     }
+    // numeric folds at representation boundaries: reduce must behave as the left fold of the
+    // operator's own (double) arithmetic, map / filter must see the element unchanged
+    {
+        let nums = al::numbers_small();
+        let folds = [
+            json!({"+": [{"var": "current"}, {"var": "accumulator"}]}), json!({"+": [{"var": "accumulator"}, {"var": "current"}]}),
+            json!({"*": [{"var": "accumulator"}, {"var": "current"}]}), json!({"max": [{"var": "accumulator"}, {"var": "current"}]}),
+            json!({"min": [{"var": "current"}, {"var": "accumulator"}]}), json!({"-": [{"var": "accumulator"}, {"var": "current"}]}),
+            json!({"cat": [{"var": "accumulator"}, {"var": "current"}]}),
+        ];
+        let inits = [json!(0), json!(9007199254740992u64), json!("1"), json!(-0.0), json!({"var": "init"})];
+        for n in 1..=3usize {
+            for t in al::tuples(&nums, n) {
+                if !ctx.mine() {
+                    continue;
+                }
+                let lit = Value::Array(t.clone());
+                let dd = json!({"coll": lit, "init": 9007199254740993u64});
+                for f in &folds {
+                    for i in &inits {
+                        ctx.edge();
+                        ctx.check("reduce:numeric-fold", &op("reduce", vec![json!({"var": "coll"}), f.clone(), i.clone()]), &dd);
+                    }
+                }
+                if n <= 2 {
+                    for e in [json!({"+": [{"var": ""}, 0]}), json!({"var": ""}), json!({"*": [{"var": ""}, 1]}), json!({"===": [{"var": ""}, {"var": ""}]})] {
+                        ctx.check("map:numeric", &op("map", vec![lit.clone(), e.clone()]), &dd);
+                        ctx.check("filter:numeric", &op("filter", vec![json!({"var": "coll"}), e.clone()]), &dd);
+                    }
+                }
+            }
+        }
+    }
     // null and non-array collections
     if ctx.mine() {
         let noncolls = vec![json!(null), json!("abc"), json!(5), json!(true), json!({}), json!({"a": 1}), json!(""), json!(0), json!(false)];
